@@ -40,15 +40,22 @@ func bufEff() effects {
 	return e
 }
 
-func (e *Engine) extraPrelude() string {
+func (e *Engine) extraPrelude(text string) string {
 	var sb strings.Builder
+	has := func(sym string) bool { return text == "" || strings.Contains(text, sym) }
 	sb.WriteString("(declare-fun isNotExist (Int Int) Bool)\n(assert (not (isNotExist 0 0)))\n")
 	sb.WriteString("(declare-fun p_ext (Str) Str)\n(declare-fun p_clean (Str) Str)\n(declare-fun p_isabs (Str) Bool)\n")
 	sb.WriteString("(declare-fun fp_dir (Str) Str)\n(declare-fun fp_base (Str) Str)\n(declare-fun fp_join (Str Str) Str)\n(declare-fun fp_abs (Str) Str)\n(declare-fun fp_rel (Str Str) Str)\n(declare-fun fp_relok (Str Str) Bool)\n(declare-fun fp_isabs (Str) Bool)\n(declare-fun s_lower (Str) Str)\n")
-	sb.WriteString("(assert (forall ((s Str)) (! (and (<= 0 (s_len (p_ext s))) (<= (s_len (p_ext s)) (s_len s)) (= (p_ext s) (s_sub s (- (s_len s) (s_len (p_ext s))) (s_len s)))) :pattern ((p_ext s)))))\n")
-	sb.WriteString("(assert (forall ((s Str)) (! (>= (s_len (p_clean s)) 1) :pattern ((p_clean s)))))\n")
+	if has("p_ext") {
+		sb.WriteString("(assert (forall ((s Str)) (! (and (<= 0 (s_len (p_ext s))) (<= (s_len (p_ext s)) (s_len s)) (= (p_ext s) (s_sub s (- (s_len s) (s_len (p_ext s))) (s_len s)))) :pattern ((p_ext s)))))\n")
+	}
+	if has("p_clean") {
+		sb.WriteString("(assert (forall ((s Str)) (! (>= (s_len (p_clean s)) 1) :pattern ((p_clean s)))))\n")
+	}
 	sb.WriteString("(assert (forall ((s Str)) (! (and (>= (s_len s) 0) (<= (s_len s) 70368744177664)) :pattern ((s_len s)))))\n")
-	sb.WriteString("(assert (forall ((a Str) (b Str)) (! (= (s_len (s_cat a b)) (+ (s_len a) (s_len b))) :pattern ((s_cat a b)))))\n")
+	if has("s_cat") {
+		sb.WriteString("(assert (forall ((a Str) (b Str)) (! (= (s_len (s_cat a b)) (+ (s_len a) (s_len b))) :pattern ((s_cat a b)))))\n")
+	}
 	return sb.String()
 }
 
@@ -101,7 +108,7 @@ func (fc *FnCtx) freshBytes(name string, ln Term) Value {
 
 // bytes.Buffer layout: buf []byte at cells 0..3, off int at cell 4.
 type bufView struct {
-	obj, base           Term
+	obj, base                   Term
 	bobj, boff, blen, bcap, off Term
 }
 
